@@ -5,9 +5,14 @@ correspond: the REAL `SingleLayerOperator.bilform_matrix` / `InitialOperator.lin
   (a) every path (inline, serial, pool with 1, 2, 3, 7, 16 workers) against pair-wise evaluation (bitwise) and
       against the Lean model `computeMatrix` / `computeVector` under several schedules;
   (b) histories of calls / failing saves / killed processes / truncations against real files in a fresh
-      directory, against the Lean model `run` (returned values and file states after every event).
+      directory, against the Lean model `run` (returned values and file states after every event); one third of
+      the histories runs several operator configurations (quad_order, pw_exact) per curve against the one
+      directory: every call must return its own operator's matrix (oracle) and use its own file (model);
+  (c) the configuration text `str((quad_order, pw_exact))` against the model's `cfgText`.
 search: property oracle in plain Python with the REAL leaves (floats, bitwise), file names of different
-  element lists / curves, and the reproduction of finding F7 (the file name ignores the configuration).
+  element lists / curves / configurations, operators that differ in pw_exact / quad_order against one directory
+  (the repaired behaviour of finding F7 is the required one: no shared entry, each result = its own pair-wise
+  evaluation; violation key `C17:cache-key-ignores-config`).
 """
 import gc
 import hashlib
@@ -44,8 +49,11 @@ ASSUMPTIONS = [
     'name contains no `[` (checked on every mesh used here)',
     'a damaged file is one numpy.load rejects (missing, truncated, not an array file); a bit flip inside the data '
     'block of a complete file is outside the model',
-    'key discipline: all operators sharing a cache directory under one curve name have the same leaf — FALSE for '
-    'operators that differ in pw_exact / quad_order (finding F7, Lean: key_not_injective_on_config)',
+    'key discipline: all operators sharing a cache directory under one curve name AND one configuration text '
+    'str((quad_order, pw_exact)) have the same leaf, i.e. bilform is determined by curve, quad_order and pw_exact '
+    '(operators that differ in pw_exact / quad_order get different files since the repair of finding F7; Lean: '
+    'cache_transparent_across_configs; the unrepaired name: key_not_injective_on_config_unfixed_witness)',
+    'quad_order is a non-negative int and pw_exact a bool (cfgText models str of such a tuple)',
 ]
 
 WORKERS = (1, 2, 3, 7, 16)
@@ -327,7 +335,13 @@ def sl_operator(mesh, k, causal=True, jitter=False, cache_dir=None, **kw):
     from src.single_layer import SingleLayerOperator
     op = SingleLayerOperator(mesh, cache_dir=cache_dir, **kw)
     op._tok_k, op._tok_causal, op._tok_jitter = k, causal, jitter
+    op._cfg = (kw.get('quad_order', 12), kw.get('pw_exact', False))  # what the harness handed to the constructor
     return op
+
+
+def enc_var(op):
+    """`<k>/<quad_order>/<pw_exact>` of the line protocol."""
+    return '%d/%d/%d' % (op._tok_k, op._cfg[0], int(op._cfg[1]))
 
 
 def correspond_paths(res, tier, rng):
@@ -480,9 +494,20 @@ def file_state(fn):
         return 'C'
 
 
-def sl_file(cache_dir, gamma, tests, trials):
-    md5 = hashlib.md5((str(gamma) + str(tests) + str(trials)).encode()).hexdigest()
+def sl_file(cache_dir, gamma, tests, trials, cfg=(12, False)):
+    """The file name of the repaired code: the hashed text ends with str((quad_order, pw_exact))."""
+    md5 = hashlib.md5((str(gamma) + str(tests) + str(trials) + str(tuple(cfg))).encode()).hexdigest()
     return '%s/SL_%s_%dx%d_%s.npy' % (cache_dir, gamma, len(tests), len(trials), md5)
+
+
+# histories: which operators share the directory
+#   'one'     one operator per curve
+#   'configs' four operators per curve that differ in (quad_order, pw_exact); the token leaf is determined by the
+#             configuration (as the real leaf is), so every call has to return its own operator's matrix
+#   'tokens'  two token leaves under ONE configuration per curve: outside the key discipline, model and code must
+#             agree on who is handed whose file (no oracle)
+HIST_CONFIGS = [(0, {}), (1, dict(pw_exact=True)), (2, dict(quad_order=5)), (3, dict(quad_order=7, pw_exact=True))]
+HIST_MODES = ('one', 'configs', 'tokens')
 
 
 def vec_file(cache_dir, gamma, problem, elems):
@@ -516,8 +541,9 @@ def damage(fn, kind, rng):
 DAMAGE = ('empty', 'header', 'half', 'short', 'garble', 'rm')
 
 
-def run_sl_history(res, rng, tmp, hist_id, disciplined, n_events, oracle=True):
+def run_sl_history(res, rng, tmp, hist_id, mode, n_events, oracle=True):
     """One random history on the real `bilform_matrix` with token leaves; returns (model line, expected output)."""
+    disciplined = mode != 'tokens'
     import src.single_layer as sl
     cache_dir = tempfile.mkdtemp(prefix='h%d_' % hist_id, dir=tmp)
     curves = [('UnitSquare', 2, 0), ('Circle', 2, 0)]
@@ -526,20 +552,25 @@ def run_sl_history(res, rng, tmp, hist_id, disciplined, n_events, oracle=True):
         mesh, elems = make_mesh(curve, refine, rng, local)
         pairs = [sublists(rng, elems, 10, 10), sublists(rng, elems, 9, 11), sublists(rng, elems, 7, 16),
                  (elems[:12], elems[:12]), (elems[:12], elems[1:13])]
-        variants = [0] if disciplined else [0, 1]
-        ops = {k: sl_operator(mesh, k, True, cache_dir=cache_dir) for k in variants}
+        if mode == 'configs':  # few inputs, many operators: most calls find the directory populated by other configurations
+            pairs = [pairs[0], pairs[3], pairs[1]][:2 + ci]
+        variants = {'one': HIST_CONFIGS[:1], 'configs': HIST_CONFIGS, 'tokens': [(0, {}), (1, {})]}[mode]
+        if mode == 'one' and hist_id % 2:
+            variants = [HIST_CONFIGS[1 + hist_id % 3]]
+        with silence_stdout():
+            ops = {k: sl_operator(mesh, k, True, cache_dir=cache_dir, **kw) for k, kw in variants}
         ctx.append((ci, curve, mesh, pairs, ops))
     events, outs = [], []
     for ev in range(n_events):
         ci, curve, mesh, pairs, ops = ctx[rng.randrange(len(ctx))]
         tests, trials = pairs[rng.randrange(len(pairs))]
         N, M = len(tests), len(trials)
-        fn = sl_file(cache_dir, mesh.gamma_space, tests, trials)
+        k = rng.choice(sorted(ops))
+        op = ops[k]
+        fn = sl_file(cache_dir, mesh.gamma_space, tests, trials, op._cfg)
         enc_t, enc_r = enc_elems(tests), enc_elems(trials)
         r = rng.random()
         if r < 0.55:
-            k = rng.choice(sorted(ops))
-            op = ops[k]
             use_mp = rng.random() < 0.3
             w = rng.choice(WORKERS[:4])
             sv = rng.choice('wwwnp')
@@ -552,32 +583,50 @@ def run_sl_history(res, rng, tmp, hist_id, disciplined, n_events, oracle=True):
                 res.violation('C17:cache-call-raises', dict(history=hist_id, event=ev, curve=curve, file=os.path.basename(fn),
                                                             state_before=file_state(fn), error=repr(exc)[:300]))
                 got, chunk = None, 1
-            events.append('call@%d@%d@%d@%d@%d@%s@%s@%s@%s' % (ci, k, use_mp, w, chunk, rng.choice('fr'), sv, enc_t, enc_r))
+            events.append('call@%d@%s@%d@%d@%d@%s@%s@%s@%s' % (ci, enc_var(op), use_mp, w, chunk, rng.choice('fr'), sv, enc_t, enc_r))
             outs.append('ret:%s:%s' % (show_mat(got, N, M), file_state(fn)))
             res.count(('hist', hist_id, ev), True)
             res.bump('hist_call_hit' if hit else 'hist_call_miss')
+            if mode == 'configs':
+                res.bump('hist_call_multi_config')
             if oracle and disciplined:
                 want = pairwise(op, tests, trials)
                 if got is not None and not bits_equal(got, want):
-                    res.violation('C17:cache-changes-result',
+                    # whose matrix is it?  another operator's (one that differs in quad_order / pw_exact only) = the
+                    # file name does not separate the configurations
+                    other = [o._cfg for o in ops.values() if o is not op and bits_equal(got, pairwise(o, tests, trials))]
+                    if other:  # one replay record per run for this call site; the further cases are counted
+                        res.bump('hist_calls_handed_another_configurations_matrix')
+                    if not other or res.notes['hist_calls_handed_another_configurations_matrix'] == 1:
+                        res.violation('C17:cache-key-ignores-config' if other else 'C17:cache-changes-result',
                                   dict(history=hist_id, event=ev, curve=curve, N=N, M=M, file=os.path.basename(fn),
+                                       operator=dict(quad_order=op._cfg[0], pw_exact=op._cfg[1]),
+                                       got_is_matrix_of=[dict(quad_order=c[0], pw_exact=c[1]) for c in other],
+                                       directory=sorted(os.listdir(cache_dir)), events_so_far=events[-8:],
                                        got=show_mat(got, N, M)[:300], want=show_mat(want, N, M)[:300]))
         elif r < 0.65:
-            k = rng.choice(sorted(ops))
             sv = rng.choice('wnp')
             with patched_mp(sl, 1), patched_np(sl, 'kill-' + sv):
-                in_child(lambda: ops[k].bilform_matrix(tests, trials, use_mp=False))
-            events.append('crash@%d@%d@0@1@1@f@%s@%s@%s' % (ci, k, sv, enc_t, enc_r))
+                in_child(lambda: op.bilform_matrix(tests, trials, use_mp=False))
+            events.append('crash@%d@%s@0@1@1@f@%s@%s@%s' % (ci, enc_var(op), sv, enc_t, enc_r))
             outs.append(file_state(fn))
             res.count(('hist', hist_id, ev), True)
             res.bump('hist_crash_' + sv)
         else:
             kind = rng.choice(DAMAGE)
             applied = damage(fn, kind, rng)
-            events.append('%s@%d@%s@%s' % ({'rm': 'rm', 'garble': 'garble'}.get(kind, 'trunc'), ci, enc_t, enc_r))
+            events.append('%s@%d@%s@%s@%s' % ({'rm': 'rm', 'garble': 'garble'}.get(kind, 'trunc'), ci, enc_var(op), enc_t, enc_r))
             outs.append(file_state(fn))
             res.count(('hist', hist_id, ev), applied is not None)
             res.bump('hist_damage_%s%s' % (kind, '' if applied else '_nofile'))
+    if mode == 'configs':
+        # every file in the directory is the file of one (curve, lists, configuration) of this history
+        names = {os.path.basename(sl_file(cache_dir, mesh.gamma_space, t, r_, o._cfg))
+                 for _, _, mesh, pairs, ops in ctx for t, r_ in pairs for o in ops.values()}
+        stray = sorted(set(os.listdir(cache_dir)) - names)
+        if stray:
+            res.broken_obligation('correspondence C17: file names', 'history %d: files %r are not named after (curve, lists, '
+                                  'str((quad_order, pw_exact)))' % (hist_id, stray[:3]))
     return 'asm hist ' + ' '.join(events), ' | '.join(outs)
 
 
@@ -698,11 +747,13 @@ def correspond(res, tier):
             scripted_truncations(res, rng, tmp)
             n_hist = 6 if tier == 'quick' else 60
             for h in range(n_hist):
-                disciplined = h % 3 != 2
-                line, out = run_sl_history(res, rng, tmp, h, disciplined, 14 if tier == 'quick' else 30)
+                mode = HIST_MODES[h % 3]
+                line, out = run_sl_history(res, rng, tmp, h, mode, (18 if mode == 'configs' else 14) if tier == 'quick' else 30)
                 lines.append(line)
                 expect.append(out)
-                meta.append('history %d (%s)' % (h, 'one configuration per curve' if disciplined else 'two configurations per curve'))
+                meta.append('history %d (%s)' % (h, {'one': 'one operator per curve',
+                                                     'configs': 'four configurations (quad_order, pw_exact) per curve',
+                                                     'tokens': 'two token leaves under one configuration per curve'}[mode]))
             for h in range(3 if tier == 'quick' else 30):
                 line, out = run_vec_history(res, rng, tmp, h, 14 if tier == 'quick' else 30)
                 lines.append(line)
@@ -712,6 +763,15 @@ def correspond(res, tier):
         shutil.rmtree(tmp, ignore_errors=True)
         for p in multiprocessing.active_children():
             p.terminate()
+
+    # (c) the configuration text that enters the hashed text
+    qs = list(range(0, 34)) + [99, 100, 101, 1000, 65536, 10 ** 12 + 7] + [rng.randrange(10 ** 9) for _ in range(6 if tier == 'quick' else 60)]
+    for q in qs:
+        for pw in (False, True):
+            lines.append('asm cfg %d %d' % (q, pw))
+            expect.append(str((q, pw)))
+            meta.append('str((quad_order, pw_exact)) for (%d, %s)' % (q, pw))
+            res.count(('cfg', q, pw), True)
 
     out = run_driver(lines)
     if len(out) != len(lines):
@@ -733,7 +793,7 @@ def correspond(res, tier):
 # --------------------------------------------------------------------------------------------------
 def search(res, tier, boost=False):
     """Property oracle on the real code with the REAL leaves (floats): every path and the cache against
-    pair-wise evaluation, bitwise.  Plus: file names, and the reproduction of F7."""
+    pair-wise evaluation, bitwise.  Plus: file names, and operators of different configurations against one directory."""
     import src.error_estimator as ee
     import src.initial_potential as ip
     import src.single_layer as sl
@@ -786,7 +846,8 @@ def search(res, tier, boost=False):
                         if fn is None or file_state(fn) != 'V':
                             res.violation('C17:cache-not-written', dict(case=label, created=created))
                             continue
-                        if fn != sl_file(cache_dir, mesh.gamma_space, tests, trials):
+                        if fn != sl_file(cache_dir, mesh.gamma_space, tests, trials,
+                                         (kw.get('quad_order', 12), kw.get('pw_exact', False))):
                             res.broken_obligation('correspondence C17: file names', 'created %r' % created)
                         cmp('cache-warm', lambda: opc.bilform_matrix(tests, trials, use_mp=True))
                         for kind in DAMAGE if (thorough or N == M) else DAMAGE[:2]:
@@ -796,7 +857,7 @@ def search(res, tier, boost=False):
                     elif created:
                         res.violation('C17:small-call-touches-cache', dict(case=label, created=created))
 
-        # file names: different (curve, lists) never share a name
+        # file names: different (curve, lists, configuration) never share a name
         mesh_a, el_a = make_mesh('UnitSquare', 2, rng, 0)
         mesh_b, el_b = make_mesh('PiSquare', 2, rng, 0)
         mesh_c, el_c = make_mesh('Circle', 2, rng, 0)
@@ -805,13 +866,14 @@ def search(res, tier, boost=False):
             cands = [(els[:10], els[:10]), (els[:10], els[1:11]), (els[1:11], els[:10]), (els[:11], els[:10]),
                      (els[:10], els[:11]), (els[:20], els[:5]), (els[:5], els[:20]), (els[:10], list(reversed(els[:10]))),
                      (els[:12], els[:12]), (els[:10] + els[11:13], els[:12])]
-            for tests, trials in cands:
-                fn = os.path.basename(sl_file('d', gamma, tests, trials))
-                key = (str(gamma), repr(tests), repr(trials))
-                res.count(('name', ) + key, True)
-                if fn in seen and seen[fn] != key:
-                    res.violation('C17:file-name-shared', dict(file=fn, a=[s[:200] for s in seen[fn]], b=[s[:200] for s in key]))
-                seen[fn] = key
+            for ti, (tests, trials) in enumerate(cands):
+                for cfg in ((12, False), (12, True), (5, False), (1, False), (2, False), (12, 0), (125, False))[:7 if ti < 2 else 2]:
+                    fn = os.path.basename(sl_file('d', gamma, tests, trials, cfg))
+                    key = (str(gamma), repr(tests), repr(trials), str(cfg))
+                    res.count(('name', ) + key, True)
+                    if fn in seen and seen[fn] != key:
+                        res.violation('C17:file-name-shared', dict(file=fn, a=[s[:200] for s in seen[fn]], b=[s[:200] for s in key]))
+                    seen[fn] = key
         # ... and the real code uses exactly these names (one file per distinct input)
         cache_dir = tempfile.mkdtemp(prefix='names_', dir=tmp)
         with token_leaves():
@@ -935,37 +997,59 @@ def search(res, tier, boost=False):
             if bits_equal(stale, want):
                 res.bump('note_estimator_cache_name_ignores_residual')
 
-        # F7: two operators that differ in pw_exact share one directory
-        cache_dir = tempfile.mkdtemp(prefix='f7_', dir=tmp)
+        # operators that differ in pw_exact / quad_order against ONE directory (repaired finding F7): no shared entry,
+        # every result (fresh and warm) bitwise equal to the operator's own pair-wise evaluation
         mesh, elems = make_mesh('UnitSquare', 2, rng, 0)
-        with silence_stdout():
-            first = SingleLayerOperator(mesh, pw_exact=False, cache_dir=cache_dir)
-            second = SingleLayerOperator(mesh, pw_exact=True, cache_dir=cache_dir)
-            a = first.bilform_matrix(elems, elems)
-            files = sorted(os.listdir(cache_dir))
-            b = second.bilform_matrix(elems, elems)
-            want_b = pairwise(second, elems, elems)
-        res.count(('F7', ), True)
-        if sorted(os.listdir(cache_dir)) == files and bits_equal(a, b) and not bits_equal(b, want_b):
-            res.violation('C17:cache-key-ignores-config',
-                          dict(curve='UnitSquare', refine=2, n=len(elems), file=files, first=dict(pw_exact=False),
-                               second=dict(pw_exact=True), differing_entries=int((b != want_b).sum()),
-                               max_abs_diff=float(np.abs(b - want_b).max()),
-                               note='second operator is handed the matrix stored by the first; the file name is built '
-                                    'from str(gamma_space), the element lists and nothing else'))
-        # same for quad_order (coarser rule -> visibly different numbers)
-        cache_dir = tempfile.mkdtemp(prefix='f7q_', dir=tmp)
-        with silence_stdout():
-            first = SingleLayerOperator(mesh, quad_order=12, cache_dir=cache_dir)
-            second = SingleLayerOperator(mesh, quad_order=5, cache_dir=cache_dir)
-            a = first.bilform_matrix(elems[:12], elems[:12])
-            b = second.bilform_matrix(elems[:12], elems[:12])
-            want_b = pairwise(second, elems[:12], elems[:12])
-        res.count(('F7q', ), True)
-        if bits_equal(a, b) and not bits_equal(b, want_b):
-            res.violation('C17:cache-key-ignores-config',
-                          dict(first=dict(quad_order=12), second=dict(quad_order=5),
-                               max_abs_diff=float(np.abs(b - want_b).max())))
+        pairs = [('UnitSquare', mesh, elems, elems, dict(pw_exact=False), dict(pw_exact=True)),
+                 ('UnitSquare', mesh, elems[:12], elems[:12], dict(quad_order=12), dict(quad_order=5)),
+                 ('UnitSquare', mesh, elems[3:14], elems[:12], dict(quad_order=5, pw_exact=True), dict()),
+                 ('UnitSquare', mesh, elems[:10], elems[2:12], dict(quad_order=7), dict(quad_order=5))]
+        if thorough:
+            mesh_c, elems_c = make_mesh('Circle', 2, rng, 3)
+            mesh_l, elems_l = make_mesh('LShape', 1, rng, 8)
+            pairs += [('Circle', mesh_c, elems_c[:14], elems_c[:14], dict(pw_exact=True), dict(pw_exact=False)),
+                      ('Circle', mesh_c, elems_c[:12], elems_c[1:13], dict(quad_order=9), dict(quad_order=12)),
+                      ('LShape', mesh_l, elems_l[:16], elems_l[:16], dict(pw_exact=False), dict(pw_exact=True)),
+                      ('LShape', mesh_l, elems_l[:11], elems_l[:13], dict(quad_order=12, pw_exact=True), dict(quad_order=3, pw_exact=True)),
+                      ('UnitSquare', mesh, elems[:20], elems[:20], dict(quad_order=12), dict(quad_order=11))]
+        for pi, (curve, mesh_p, tests, trials, kw1, kw2) in enumerate(pairs):
+            cache_dir = tempfile.mkdtemp(prefix='f7_%d_' % pi, dir=tmp)
+            with silence_stdout():
+                first = SingleLayerOperator(mesh_p, cache_dir=cache_dir, **kw1)
+                second = SingleLayerOperator(mesh_p, cache_dir=cache_dir, **kw2)
+                want_a, want_b = pairwise(first, tests, trials), pairwise(second, tests, trials)
+                info = dict(curve=curve, N=len(tests), M=len(trials), tests=enc_elems(tests)[:200], trials=enc_elems(trials)[:200],
+                            first=kw1 or dict(quad_order=12, pw_exact=False), second=kw2 or dict(quad_order=12, pw_exact=False))
+                a = guarded(res, 'C17:real-leaf-raises:two-configs', info, lambda: first.bilform_matrix(tests, trials))
+                files_a = sorted(os.listdir(cache_dir))
+                b = guarded(res, 'C17:real-leaf-raises:two-configs', info, lambda: second.bilform_matrix(tests, trials))
+                files_b = sorted(os.listdir(cache_dir))
+                a2 = guarded(res, 'C17:real-leaf-raises:two-configs', info, lambda: first.bilform_matrix(tests, trials, use_mp=True))
+                b2 = guarded(res, 'C17:real-leaf-raises:two-configs', info, lambda: second.bilform_matrix(tests, trials, use_mp=True))
+            res.count(('two-configs', pi), True)
+            res.bump('search_two_configs_one_directory')
+            if a is None or b is None or a2 is None or b2 is None:
+                continue
+            shared = len(files_b) < 2 or files_b == files_a
+            wrong = [name for name, got, want in (('first', a, want_a), ('second', b, want_b), ('first-warm', a2, want_a),
+                                                  ('second-warm', b2, want_b)) if not bits_equal(got, want)]
+            if wrong:
+                res.bump('search_two_configs_wrong_result')
+            if wrong and res.notes['search_two_configs_wrong_result'] == 1:  # one replay record; further pairs are counted
+                res.violation('C17:cache-key-ignores-config',
+                              dict(info, files_after_first=files_a, files_after_second=files_b, shared_file=shared, wrong_results=wrong,
+                                   second_is_first_matrix=bool(bits_equal(a, b)), differing_entries=int((b != want_b).sum()),
+                                   max_abs_diff=float(np.abs(np.asarray(b) - want_b).max()),
+                                   note='two operators that differ only in the configuration against one cache directory: a call is '
+                                        'handed a matrix that is not its own pair-wise evaluation'))
+            elif wrong:
+                pass
+            elif shared:
+                # one file for both although the configurations differ; the values happen to agree bitwise
+                res.bump('note_two_configs_share_a_file_with_equal_values')
+            elif os.path.join(cache_dir, files_a[0]) != sl_file(
+                    cache_dir, mesh_p.gamma_space, tests, trials, (kw1.get('quad_order', 12), kw1.get('pw_exact', False))):
+                res.broken_obligation('correspondence C17: file names', 'two configurations: created %r' % files_b)
     finally:
         shutil.rmtree(tmp, ignore_errors=True)
         for p in multiprocessing.active_children():
